@@ -214,8 +214,12 @@ class GMRF(Distribution):
             else:
                 xi = np.random.randn(self._diff_op.shape[0], N)   # standard Gaussian
 
-            s = self.mean[:, np.newaxis] + (1/np.sqrt(self.prec))* \
-                splinalg.spsolve(self._chol.T, (splinalg.spsolve(self._chol, (self._diff_op.T @ xi)))) 
+            perturbation = (1/np.sqrt(self.prec))* \
+                splinalg.spsolve(self._chol.T, (splinalg.spsolve(self._chol, (self._diff_op.T @ xi))))
+            if N == 1: # spsolve returns a 1D array for a single right-hand side
+                s = self.mean + perturbation
+            else:
+                s = self.mean[:, np.newaxis] + perturbation
         else:
             raise TypeError('Unexpected BC type (choose from zero, periodic, neumann or none)')
 
